@@ -55,6 +55,14 @@ def raw_array(spec):
         big[sl] = a
         base = big
         a = big[sl]
+    elif layout == "neg" and a.ndim >= 1:  # negative stride along the first axis (a reversed view of the caller's buffer)
+        base = np.ascontiguousarray(a[::-1])
+        a = base[::-1]
+    elif layout == "bcast" and a.ndim == 2:  # one column broadcast over all columns (read-only view, stride 0)
+        base = np.ascontiguousarray(a[:, :1])
+        a = np.broadcast_to(base, a.shape)
+    elif layout == "ro":  # a read-only array (e.g. memory-mapped data, a frozen constant)
+        a.flags.writeable = False
     return a, base
 
 
